@@ -23,9 +23,11 @@ import (
 	"io"
 	"os"
 	"path/filepath"
+	"runtime/pprof"
 	"sort"
 	"strconv"
 	"strings"
+	"time"
 
 	"github.com/bufbuild/buf/private/bufpkg/bufanalysis"
 	"github.com/bufbuild/buf/private/bufpkg/bufimage"
@@ -34,12 +36,12 @@ import (
 	"github.com/bufbuild/buf/private/pkg/uuidutil"
 	"github.com/bufbuild/protocompile"
 	"github.com/bufbuild/protocompile/linker"
-	"github.com/bufbuild/protocompile/protoutil"
 	"github.com/bufbuild/protocompile/reporter"
 	"github.com/bufbuild/verifharness/internal/hx"
 	"github.com/bufbuild/verifharness/internal/wsgen"
 	"github.com/google/uuid"
 	"google.golang.org/protobuf/proto"
+	"google.golang.org/protobuf/types/descriptorpb"
 )
 
 var ctx = context.Background()
@@ -279,17 +281,43 @@ func faultCount(ws *wsgen.WS) int {
 func main() {
 	run := hx.Start("C01")
 	defer run.Finish()
+	if pf := os.Getenv("C01_CPUPROFILE"); pf != "" {
+		f, _ := os.Create(pf)
+		pprof.StartCPUProfile(f)
+		defer pprof.StopCPUProfile()
+	}
 	rnd := hx.NewRand(run.Seed ^ 0xc01)
 	tmpRoot := filepath.Join(run.OutDir, "ws")
-	nMem := run.N(1300, 24000)
-	nDisk := run.N(250, 4000)
-	nPlant := run.N(250, 3000)
-	total := nMem + nDisk + nPlant
+	nMem := run.N(1300, 13000)
+	nDisk := run.N(250, 2400)
+	nPlant := run.N(250, 2000)
+	nFam := famCount(run)
+	total := nMem + nDisk + nPlant + nFam
+	t0 := time.Now()
+	lap := func(name string) {
+		run.Set("seconds:"+name, time.Since(t0).Seconds())
+		t0 = time.Now()
+	}
 	for i := 0; i < total; i++ {
+		switch i {
+		case nMem:
+			lap("A-mem")
+		case nMem + nDisk:
+			lap("A-disk")
+		case nMem + nDisk + nPlant:
+			lap("B-planted")
+		}
 		if run.Only >= 0 && i != run.Only {
 			continue
 		}
 		r := rnd.Fork(uint64(i))
+		if i >= nMem+nDisk+nPlant {
+			// Section C: the stratified import-statement family (family.go)
+			ws := famWorkspace(run, r, i-(nMem+nDisk+nPlant))
+			run.Count("family:" + ws.Kind)
+			imageCase(run, i, r, ws, filepath.Join(tmpRoot, strconv.Itoa(i)))
+			continue
+		}
 		kind := "mem"
 		if i >= nMem && i < nMem+nDisk {
 			kind = tf(r.Bool(), "v2", "v1")
@@ -300,13 +328,17 @@ func main() {
 			plantCase(run, i, r, ws, filepath.Join(tmpRoot, strconv.Itoa(i)))
 			continue
 		}
-		ws := wsgen.Gen(r, wsgen.Opts{Kind: kind, Faults: r.Chance(1, 3), MoreTargets: true})
+		ws := wsgen.Gen(r, wsgen.Opts{Kind: kind, Faults: r.Chance(1, 3), MoreTargets: true, RichImports: true})
 		if faultCount(ws) > 1 {
 			run.Count("skipped:several-fault-kinds")
 			continue
 		}
 		imageCase(run, i, r, ws, filepath.Join(tmpRoot, strconv.Itoa(i)))
 	}
+	lap("C-family")
+	// Section D: the real binary, `buf build -o` in every form (binary.go)
+	binarySection(run, rnd.Fork(0xb1a), filepath.Join(run.OutDir, "bin"), total)
+	lap("D-binary")
 	os.RemoveAll(tmpRoot)
 }
 
@@ -347,8 +379,17 @@ func imageCase(run *hx.Run, idx int, r *hx.Rand, ws *wsgen.WS, dir string) {
 	sel := selected(ws, b)
 	e := expect(sel)
 	unusedByFile := map[string]map[string]bool{}
+	var want map[string]*descriptorpb.FileDescriptorProto
+	var cerr error
 	if len(sel) == len(b.ModuleSet.Modules()) && e.clean && !e.noTargets {
-		unusedByFile = directUnused(e)
+		var unusedAll map[string]map[string]bool
+		want, unusedAll, cerr = directCompile(e, protocompile.SourceInfoExtraOptionLocations)
+		unusedByFile = rootsOnly(e, unusedAll)
+		if os.Getenv("C01_CHECK_UNUSED") != "" {
+			if a, b := fmt.Sprint(unusedByFile), fmt.Sprint(directUnused(e)); a != b {
+				fail("harness-unused-mismatch", a+" vs "+b)
+			}
+		}
 		for p, gf := range e.file {
 			for i := range gf.Imports {
 				v := unusedByFile[p][gf.Imports[i].Path]
@@ -468,9 +509,24 @@ func imageCase(run *hx.Run, idx int, r *hx.Rand, ws *wsgen.WS, dir string) {
 			}
 		}
 	}
-	// descriptors = what the compiler produces for the same source text (a test, not a proof)
-	if r.Chance(1, 3) {
-		compareDescriptors(run, fail, e, img)
+	// descriptors = what the compiler produces for the same source text (a test, not a proof):
+	// in memory, serialised, read back, and through every other way out of an image (wire.go)
+	if cerr != nil || want == nil {
+		fail("direct-compile-failed", fmt.Sprintf("independent protocompile run failed: %v", cerr))
+		return
+	}
+	compareDescriptors(run, fail, want, img)
+	wireChecks(run, fail, ws, e, unusedByFile, img, want)
+	if r.Chance(1, 4) {
+		imgNo, nerr, hung := wsgen.BuildImageWatchdog(ctx, b.ModuleSet, bufimage.WithExcludeSourceCodeInfo())
+		switch {
+		case hung:
+			fail("build-hang", "bufimage.BuildImage(WithExcludeSourceCodeInfo) did not return within 20s")
+		case nerr != nil:
+			fail("buildable-fails", fmt.Sprintf("the workspace builds with source info but not without: %v", nerr))
+		default:
+			noSourceInfoChecks(run, fail, img, imgNo, want)
+		}
 	}
 }
 
@@ -508,34 +564,18 @@ func directUnused(e *expectation) map[string]map[string]bool {
 	return out
 }
 
-func compareDescriptors(run *hx.Run, fail func(string, string), e *expectation, img bufimage.Image) {
-	accessor := func(p string) (io.ReadCloser, error) {
-		if f, ok := e.file[p]; ok {
-			src, _, _ := f.Source()
-			return io.NopCloser(strings.NewReader(src)), nil
-		}
-		return datawkt.ReadBucket.Get(ctx, p)
-	}
-	var roots []string
-	for p := range e.closure {
-		roots = append(roots, p)
-	}
-	sort.Strings(roots)
-	c := protocompile.Compiler{Resolver: &protocompile.SourceResolver{Accessor: accessor}, SourceInfoMode: protocompile.SourceInfoExtraOptionLocations}
-	files, err := c.Compile(ctx, roots...)
-	if err != nil {
-		fail("direct-compile-failed", "independent protocompile run failed: "+err.Error())
-		return
-	}
+func compareDescriptors(run *hx.Run, fail func(string, string), want map[string]*descriptorpb.FileDescriptorProto, img bufimage.Image) {
 	run.Count("descriptor-comparisons")
-	for _, lf := range files {
-		want := protoutil.ProtoFromFileDescriptor(lf)
-		got := img.GetFile(lf.Path())
-		if got == nil {
+	for _, got := range img.Files() {
+		w := want[got.Path()]
+		if w == nil {
+			fail("descriptor-differs", "image file "+got.Path()+" was not produced by a direct compile of the closure")
 			continue
 		}
-		if !proto.Equal(want, got.FileDescriptorProto()) {
-			fail("descriptor-differs", "descriptor of "+lf.Path()+" differs from a direct compile of the same source")
+		if !proto.Equal(w, got.FileDescriptorProto()) {
+			gs, _ := slotsByNumber(got.FileDescriptorProto().ProtoReflect())
+			ws, _ := slotsByNumber(w.ProtoReflect())
+			fail("descriptor-differs", fmt.Sprintf("descriptor of %s differs from a direct compile of the same source (%s)", got.Path(), strings.Join(diffFields(gs, ws), "; ")))
 		}
 	}
 }
